@@ -14,7 +14,7 @@ class C18(Prop):
     pid = "C18"
     generators = []
     coq_targets = ["Run/EvalC18.vo"]
-    bins = ["h_codec", "h_cli", "simchild"]
+    bins = ["h_codec", "h_cli", "simchild", "wx_cli"]
     level = "proof"
     trusted = [
         "partial: the proof covers the argv construction, wrapper choice and CLI interpretation; that execve delivers the "
@@ -165,7 +165,49 @@ class C18(Prop):
                                           "clause": "C18_cli_shell_words: the shell description is not split into program and options at its whitespace"})
             if len(c.samples) < 4:
                 c.samples.append({"case": x["argv"], "impl": o["obs"], "model": m})
+        self.e2e(c, r)
         return c
+
+    def e2e(self, c, r):
+        """the command-line program itself (crates/cli run() built as harness bin wx_cli), run once (-1) with the helper child as the command:
+        the words after `--` reach the child verbatim -- they pass through the process's real argument vector and the argfile expansion,
+        which must leave everything after `--` alone"""
+        import subprocess
+        helper = harness_bin("simchild")
+        words_sets = [["@user", "@", "a@b", "@@x"], ["", "x  y", "@"], ["--not-an-option", "-n", "--", "@f"], ["é", "$HOME", "*", "@'q'"]]
+        words_sets += [[r.choice(ARGS + ["@a", "@", "@@"]) for _ in range(r.randint(1, 4))] for _ in range(4)]
+        d = scratch("c18e2e")
+        for k, words in enumerate(words_sets):
+            for mode in ("noshell", "shell"):
+                out = os.path.join(d, f"out{k}{mode}.log")
+                if os.path.exists(out):
+                    os.remove(out)
+                env = dict(os.environ, WXH_OUT=out, WXH_MODE="run", WXH_SCRIPT="exit_after=5")
+                argv = [harness_bin("wx_cli"), "-1", "--ignore-nothing"] + (["-n"] if mode == "noshell" else ["--shell=" + helper]) + ["--"] + \
+                       ([helper] if mode == "noshell" else []) + words
+                if mode == "shell" and any(w == "" for w in words[:1]):
+                    continue
+                try:
+                    subprocess.run(argv, env=env, cwd=d, stdout=subprocess.DEVNULL, stderr=subprocess.DEVNULL, timeout=30)
+                except subprocess.TimeoutExpired:
+                    c.errors.append("wx_cli timed out on " + json.dumps(words))
+                    return
+                c.evaluations += 1
+                c.count("e2e:" + mode)
+                got = None
+                if os.path.exists(out):
+                    for line in open(out):
+                        o = json.loads(line)
+                        if o.get("ev") == "start":
+                            got = o["argv"][1:]
+                            break
+                want = [hx(w) for w in words] if mode == "noshell" else [hx("-c"), hx(" ".join(words))]
+                if got == want:
+                    c.validated += 1
+                    c.nontrivial.add(json.dumps([mode, words]))
+                else:
+                    c.failing.append({"case": {"mode": mode, "words_after_double_dash": words}, "impl": got, "expected": want,
+                                      "clause": "C18_cli_noshell_verbatim / C18_shell_order (end to end): the words after `--` did not reach the command as given"})
 
 
 PROP = C18()
